@@ -43,7 +43,7 @@ class Seeds(Extension):
             corr = np.asarray(d.correlation)
             if corr.size:
                 _, props = find_peaks(corr, height=0.75 * np.max(corr), distance=MIN_PEAK_DISTANCE / d.resolution)
-                allh = sorted((float(h) for h in props['peak_heights']), reverse=True)[:12]
+                allh = sorted((float(h) for h in props['peak_heights']), reverse=True)[:40]
         except Exception:
             allh = None
         EVENTS.append(('seeds', int(d.query.moleculeId), int(d.query.shift), int(d.reference.moleculeId), bool(d.reverseStrand),
